@@ -49,7 +49,7 @@ type Summary struct {
 	Worker      int               `json:"worker"`
 	Runs        int               `json:"runs"`
 	Steps       int64             `json:"steps"`
-	SimTimeNs   int64             `json:"sim_time_ns"`
+	SimTimeS    float64           `json:"sim_time_s"`
 	WallS       float64           `json:"wall_s"`
 	Nontrivial  int               `json:"nontrivial"`
 	Probes      map[string]int    `json:"probes"`
@@ -222,7 +222,7 @@ func explore(t *testing.T, p Property, job Job, out *outWriter) {
 			fmt.Fprintf(dump, "%d %016x %016x %d %v\n", idx, res.SchedHash, res.EventHash, res.Steps, res.Violation != nil)
 		}
 		sum.Steps += int64(res.Steps)
-		sum.SimTimeNs += int64(res.SimTime)
+		sum.SimTimeS += res.SimTime.Seconds()
 		sum.Passthrough += int64(res.Passthrough)
 		sum.Tasks += int64(res.Tasks)
 		sum.Modes[spec.Mode]++
